@@ -356,6 +356,9 @@ func (x *Exec) callFuncValue(fr *Frame, st *State, ins ssa.Instruction, cc *ssa.
 	if fv.T != nil && fv.T.kind == kApp && fv.T.Op == "mk_"+sortFn && txEndID != 0 {
 		if n, ok := isLitInt(fv.T.Args[0]); ok && n.IsInt64() && int(n.Int64()) == txEndID && len(args) == 1 {
 			// the function returned by sqlitex.Transaction: commits iff *errp == nil now
+			if fv.T.Args[1] == Int(1) {
+				return Value{} // read-only transaction (attr readonlytx)
+			}
 			pt := cc.Args[0].Type().Underlying().(*types.Pointer)
 			e := x.loadPtr(st, args[0], pt.Elem())
 			st.setG("txCommitted", Eq(Acc(e, 0), Int(0)))
